@@ -117,6 +117,11 @@ func (e *Engine) intrinsic(fr *Frame, st *State, ins ssa.Instruction, fn *ssa.Fu
 		}
 	}
 	if isOurs && fn.Signature.Recv() == nil {
+		// the B-suffixed variants take an io.ByteReader (same ghost stream, keyed by the dynamic value)
+		switch name {
+		case "inPosB", "inEndB", "inByteB", "inErrB":
+			name = strings.TrimSuffix(name, "B")
+		}
 		switch name {
 		case "ghostOld":
 			return nil, true
